@@ -3,7 +3,7 @@ use crate::gen::*;
 use crate::oracle::*;
 use crate::plan::*;
 use crate::runner::*;
-use std::collections::BTreeMap;
+use std::collections::{BTreeMap, BTreeSet};
 
 pub struct Env {
     pub bins: Bins,
@@ -389,6 +389,7 @@ pub fn scenario(id: &str) -> Option<Box<dyn Scenario>> {
         }),
         "C16" => Box::new(DiffScenario),
         "C12" => Box::new(ReclaimScenario),
+        "C13" => Box::new(MultiScenario),
         "C05" => Box::new(crate::conc::ConcScenario { id: "C05" }),
         "C07" => Box::new(crate::crash::CrashScenario { mode: crate::crash::Mode::C07 }),
         "C08" => Box::new(crate::crash::CrashScenario { mode: crate::crash::Mode::C08 }),
@@ -692,5 +693,346 @@ impl Scenario for ReclaimScenario {
     fn judge_plan(&self, plan: &Plan, env: &Env) -> (Vec<Finding>, u64) {
         let rr = run_plan(&env.bins, plan, &RunOpts::default());
         (judge_reclaim(plan, &rr).0, history_hash(&rr))
+    }
+}
+
+// ---------------------------------------------------------------------------
+// C13: several instances in one process; oracle = each instance's solo run (real code, same plan)
+// ---------------------------------------------------------------------------
+pub struct MultiScenario;
+
+const INST_SPECS: &[(&str, &str)] = &[("d", "a"), ("d", "b"), ("d2", "a"), ("d", "a.b"), ("d", "t-1"), ("d2", "\u{fc}ber"), ("d3", "a b")];
+
+pub fn gen_multi(seed: u64) -> Plan {
+    let mut rng = crate::rng::Rng::new(crate::rng::mix(seed, 0xC13));
+    let n_inst = rng.range(2, 3) as usize;
+    let mut specs: Vec<(&str, &str)> = INST_SPECS.to_vec();
+    let mut chosen = Vec::new();
+    for _ in 0..n_inst {
+        let i = rng.below(specs.len() as u64) as usize;
+        chosen.push(specs.remove(i));
+    }
+    // one reclaim-style stream per instance, merged preserving per-instance order
+    let mut streams: Vec<Vec<Vec<Op>>> = Vec::new(); // [inst][incarnation] -> ops
+    let mut topics: Vec<String> = Vec::new();
+    let n_inc = if rng.chance(0.25) { 2 } else { 1 };
+    let mut sched = None;
+    let mut backend = String::new();
+    let mut clock = 0;
+    for (i, (dir, key)) in chosen.iter().enumerate() {
+        let mut p = gen_reclaim(crate::rng::mix(seed, 100 + i as u64), "C13");
+        // align incarnation count
+        while p.incarnations.len() > n_inc {
+            p.incarnations.pop();
+        }
+        while p.incarnations.len() < n_inc {
+            let last = p.incarnations.last().unwrap().clone();
+            p.incarnations.push(last);
+        }
+        let base_topic = topics.len() as u32;
+        topics.extend(p.topics.iter().cloned());
+        if sched.is_none() {
+            sched = Some(p.incarnations.iter().map(|x| x.sched.clone()).collect::<Vec<_>>());
+            backend = p.incarnations[0].backend.clone();
+            clock = p.incarnations[0].clock_start_ms;
+        }
+        let mut per_inc = Vec::new();
+        for (k, inc) in p.incarnations.iter().enumerate() {
+            let mut ops: Vec<Op> = inc.phases[0].threads[0].clone();
+            // the last generated incarnation ends with drains; earlier ones with close; keep as is
+            for o in ops.iter_mut() {
+                retarget(&mut o.kind, i as u32, base_topic, dir, key);
+            }
+            // shorten: multi-instance runs multiply the work
+            if ops.len() > 48 {
+                let tail: Vec<Op> = ops.iter().rev().take(8).rev().cloned().collect();
+                ops.truncate(40);
+                ops.extend(tail.into_iter().filter(|o| matches!(o.kind, OpKind::Drain { .. } | OpKind::Close { .. } | OpKind::Sleep { .. })));
+            }
+            let _ = k;
+            // every live (and every closed) instance keeps a flusher ticking each simulated millisecond:
+            // bound the simulated sleeping so the step budget measures the engine, not idle ticking
+            let mut sleeps = 0;
+            ops.retain(|o| {
+                if matches!(o.kind, OpKind::Sleep { .. }) {
+                    sleeps += 1;
+                    sleeps <= 3
+                } else {
+                    true
+                }
+            });
+            per_inc.push(ops);
+        }
+        streams.push(per_inc);
+    }
+    let mut ids = IdGen(0);
+    let mut incarnations = Vec::new();
+    for k in 0..n_inc {
+        let mut cursors = vec![0usize; n_inst];
+        let mut merged = Vec::new();
+        loop {
+            let live: Vec<usize> = (0..n_inst).filter(|i| cursors[*i] < streams[*i][k].len()).collect();
+            if live.is_empty() {
+                break;
+            }
+            let i = live[rng.below(live.len() as u64) as usize];
+            // take a short run from this instance
+            let run = rng.range(1, 6) as usize;
+            for _ in 0..run {
+                if cursors[i] < streams[i][k].len() {
+                    let mut o = streams[i][k][cursors[i]].clone();
+                    o.id = ids.next();
+                    merged.push(o);
+                    cursors[i] += 1;
+                }
+            }
+        }
+        let mut sc = sched.as_ref().unwrap()[k].clone();
+        sc.step_budget = 30_000_000;
+        incarnations.push(Incarnation {
+            sched: sc,
+            clock_start_ms: clock,
+            clock_delta_ms: if k == 0 { None } else { Some(rng.range(1, 5000) as i64) },
+            backend: backend.clone(),
+            phases: vec![Phase { threads: vec![merged] }],
+            faults: vec![],
+            buggify: vec![],
+            trace_io: false,
+        });
+    }
+    Plan { v: 1, property: "C13".into(), profile: "multi".into(), seed, geometry: "small".into(), topics, incarnations }
+}
+
+fn retarget(k: &mut OpKind, inst_new: u32, base_topic: u32, dir_new: &str, key_new: &str) {
+    use OpKind::*;
+    match k {
+        Open { inst, key, dir, .. } => {
+            *inst = inst_new;
+            *key = Some(key_new.to_string());
+            *dir = dir_new.to_string();
+        }
+        Close { inst } | Counts { inst } => *inst = inst_new,
+        Append { inst, topic, .. }
+        | BatchAppend { inst, topic, .. }
+        | BatchAlias { inst, topic, .. }
+        | ReadNext { inst, topic, .. }
+        | BatchRead { inst, topic, .. }
+        | Drain { inst, topic, .. }
+        | Count { inst, topic }
+        | MarkClean { inst, topic }
+        | MarkDirty { inst, topic }
+        | IsClean { inst, topic } => {
+            *inst = inst_new;
+            *topic += base_topic;
+        }
+        ListDir { dir } => {
+            // sanitised directory names are not needed by the oracle
+            *dir = dir_new.to_string();
+        }
+        _ => {}
+    }
+}
+
+fn solo_plan(plan: &Plan, inst: u32) -> Plan {
+    let mut p = plan.clone();
+    for inc in p.incarnations.iter_mut() {
+        for ph in inc.phases.iter_mut() {
+            for th in ph.threads.iter_mut() {
+                th.retain(|o| match o.kind.inst() {
+                    Some(i) => i == inst,
+                    None => true,
+                });
+            }
+        }
+    }
+    p
+}
+
+fn results_by_op(rr: &RunResult) -> BTreeMap<u32, Res> {
+    let mut m = BTreeMap::new();
+    for inc in &rr.incs {
+        for e in &inc.events {
+            if e.t == "ret" {
+                if let (Some(op), Some(res)) = (e.op, e.res.clone()) {
+                    m.insert(op, res);
+                }
+            }
+        }
+    }
+    m
+}
+
+pub fn judge_multi(plan: &Plan, together: &RunResult, solos: &[(u32, RunResult)]) -> Vec<Finding> {
+    let ops = index_ops(plan);
+    let mut out = Vec::new();
+    for (i, inc) in together.incs.iter().enumerate() {
+        if let Exit::Code(c @ (78 | 79)) = inc.exit {
+            let msg = inc.events.iter().rev().find(|e| e.t == "deadlock" || e.t == "nonterm").and_then(|e| e.msg.clone()).unwrap_or_default();
+            out.push(Finding::new(if c == 78 { "c13.deadlock" } else { "c13.nonterm" }, i, 0, msg));
+            return out;
+        }
+    }
+    if solos.iter().any(|(_, s)| s.incs.iter().any(|i| !matches!(i.exit, Exit::Code(0)))) {
+        return out;
+    }
+    let all = results_by_op(together);
+    for (inst, solo) in solos {
+        let s = results_by_op(solo);
+        for (id, op) in ops.iter() {
+            if op.kind.inst() != Some(*inst) {
+                continue;
+            }
+            let (a, b) = (all.get(id), s.get(id));
+            let same = match (a, b) {
+                (Some(x), Some(y)) => x.k == y.k && x.err_kind == y.err_kind && x.entries == y.entries && x.none == y.none && x.val == y.val && x.flag == y.flag && x.map == y.map,
+                (None, None) => true,
+                _ => false,
+            };
+            if !same {
+                let api = api_name(&op.kind);
+                // had the shared reclaimer deleted a file before this operation returned?
+                // (in either execution: the solo run is real code with the same single-instance defects,
+                // and the reclaimer's timing differs between the two)
+                let mut removal_before = false;
+                for run in [together, solo] {
+                    'scan: for inc in run.incs.iter() {
+                        for e in &inc.events {
+                            if e.t == "io" && e.io.as_ref().map(|io| io.kind == "Remove").unwrap_or(false) {
+                                removal_before = true;
+                            }
+                            if e.t == "ret" && e.op == Some(*id) {
+                                break 'scan;
+                            }
+                        }
+                    }
+                }
+                out.push(
+                    Finding::new(
+                        "c13.differs_from_solo",
+                        0,
+                        *id,
+                        format!(
+                            "instance {} op {} ({}): with the other instances alive -> {:?}; alone -> {:?}",
+                            inst,
+                            id,
+                            short_op(op, plan),
+                            a.map(|r| (r.k.clone(), r.err_kind.clone(), r.entries.len(), r.none, r.val, r.flag)),
+                            b.map(|r| (r.k.clone(), r.err_kind.clone(), r.entries.len(), r.none, r.val, r.flag))
+                        ),
+                    )
+                    .fact("api", serde_json::json!(api))
+                    .fact("file_removed_before", serde_json::json!(removal_before)),
+                );
+                break;
+            }
+        }
+    }
+    // a file removed from one instance's directory holds only that instance's, consumed, entries
+    let mut consumed: BTreeMap<u64, (usize, u64)> = BTreeMap::new();
+    for (i, inc) in together.incs.iter().enumerate() {
+        for e in &inc.events {
+            if e.t == "ret" {
+                if let (Some(id), Some(res)) = (e.op, e.res.as_ref()) {
+                    let consuming = matches!(ops.get(&id).map(|o| &o.kind), Some(OpKind::ReadNext { checkpoint: true, .. }) | Some(OpKind::BatchRead { checkpoint: true, start: None, .. }) | Some(OpKind::Drain { .. }));
+                    if consuming {
+                        let mut stamps = Vec::new();
+                        if res.calls.len() == res.call_steps.len() {
+                            for (n, st) in res.calls.iter().zip(res.call_steps.iter()) {
+                                for _ in 0..*n {
+                                    stamps.push(*st);
+                                }
+                            }
+                        }
+                        for (k, s) in res.entries.iter().enumerate() {
+                            if s.2 != 0 {
+                                consumed.entry(s.2).or_insert((i, stamps.get(k).copied().unwrap_or(e.step)));
+                            }
+                        }
+                    }
+                }
+            }
+        }
+    }
+    for (i, inc) in together.incs.iter().enumerate() {
+        for e in &inc.events {
+            if e.t == "io" && e.io.as_ref().map(|io| io.kind == "Remove").unwrap_or(false) {
+                let held: Vec<(u32, u64)> = e.msg.as_ref().and_then(|m| serde_json::from_str(m).ok()).unwrap_or_default();
+                let bad: Vec<&(u32, u64)> = held
+                    .iter()
+                    .filter(|(_, seq)| {
+                        let opid = (*seq >> 20) as u32;
+                        let acked = all.get(&opid).map(|r| r.k == "ok").unwrap_or(false);
+                        let ok = consumed.get(seq).map(|(ci, cs)| *ci < i || (*ci == i && *cs <= e.step)).unwrap_or(false);
+                        acked && !ok
+                    })
+                    .collect();
+                if !bad.is_empty() {
+                    out.push(
+                        Finding::new(
+                            "c13.removed_unconsumed",
+                            i,
+                            0,
+                            format!("file {} is deleted while it holds {} acknowledged, unconsumed entries (e.g. seq={:x}) although several instances are alive", e.io.as_ref().unwrap().path, bad.len(), bad[0].1),
+                        )
+                        .fact("unconsumed", serde_json::json!(bad.len())),
+                    );
+                }
+            }
+        }
+    }
+    out
+}
+
+impl Scenario for MultiScenario {
+    fn id(&self) -> &'static str {
+        "C13"
+    }
+    fn rule_text(&self) -> String {
+        "2-3 live instances in one process (keys that sanitize differently and/or different data directories), each driven by a reclaim-style stream (bursts that fill files, consuming reads, peeks, empty polls, simulated sleeps that let the shared reclaimer complete cleanup cycles, close/reopen of one instance while the others live), operations of the instances interleaved by seed; oracle: differential against real code - each instance's projected operation sequence is re-run alone in fresh processes with the same plan and every result must be identical op by op; plus, at every remove_file event, the deleted file must hold only consumed entries; distinct = (plan, schedule hash); non-trivial = all instances completed operations".into()
+    }
+    fn plan_for(&self, seed_r: u64) -> Option<Plan> {
+        Some(gen_multi(seed_r))
+    }
+    fn run_one(&self, seed_r: u64, env: &Env) -> Outcome {
+        let plan = gen_multi(seed_r);
+        let mut out = Outcome::default();
+        let together = run_plan(&env.bins, &plan, &RunOpts::default());
+        out.executions += together.incs.len() as u64;
+        out.digest = history_hash(&together);
+        absorb_summary(&mut out, &together);
+        out.stat("sim_clock_ms", sim_clock_ms(&together, &plan));
+        let insts: BTreeSet<u32> = index_ops(&plan).values().filter_map(|o| o.kind.inst()).collect();
+        let mut solos = Vec::new();
+        for i in insts.iter() {
+            let sp = solo_plan(&plan, *i);
+            let r = run_plan(&env.bins, &sp, &RunOpts::default());
+            out.executions += r.incs.len() as u64;
+            solos.push((*i, r));
+        }
+        let removals = together.incs.iter().map(|i| i.events.iter().filter(|e| e.t == "io" && e.io.as_ref().map(|x| x.kind == "Remove").unwrap_or(false)).count() as u64).sum::<u64>();
+        out.stat("reach.files_removed", removals);
+        out.stat(&format!("reach.instances_{}", insts.len()), 1);
+        if together.incs.len() == plan.incarnations.len() {
+            out.keys.push(plan_shape_key(&plan, &together));
+        }
+        for f in judge_multi(&plan, &together, &solos) {
+            out.findings.push((plan.clone(), f));
+        }
+        for inc in together.incs.iter().chain(solos.iter().flat_map(|s| s.1.incs.iter())) {
+            if !matches!(inc.exit, Exit::Code(0) | Exit::Code(78) | Exit::Code(79)) {
+                out.harness_errors.push(format!("child ended {:?} {}", inc.exit, inc.stderr.chars().take(200).collect::<String>()));
+            }
+        }
+        out.sample = Some(render_sample(&plan));
+        out
+    }
+    fn judge_plan(&self, plan: &Plan, env: &Env) -> (Vec<Finding>, u64) {
+        let together = run_plan(&env.bins, plan, &RunOpts::default());
+        let insts: BTreeSet<u32> = index_ops(plan).values().filter_map(|o| o.kind.inst()).collect();
+        let mut solos = Vec::new();
+        for i in insts.iter() {
+            solos.push((*i, run_plan(&env.bins, &solo_plan(plan, *i), &RunOpts::default())));
+        }
+        (judge_multi(plan, &together, &solos), history_hash(&together))
     }
 }
